@@ -183,21 +183,22 @@ impl<'ctx> IterableItem<'ctx> {
     #[verifier::external_body]
     pub fn into_resolved_result(self) -> (r: ValueAggregate) ensures r == self.value() { unimplemented!() }
 }
-pub struct IterableValue {
+pub type IterableValue = Box<IterableDyn>;
+pub struct IterableDyn {
     pub vals: Ghost<vstd::seq::Seq<ValueAggregate>>,
     pub cursor: Ghost<nat>,
     pub nexts: Ghost<nat>,          // how many times `next()` was called on this object
     pub prevs: Ghost<nat>,          // ... and `prev()`
     pub x: u8,
 }
-impl IterableValue {
+impl IterableDyn {
     // type invariant of every implementation: the cursor stays inside a non-empty vector
     pub open spec fn wf(&self) -> bool { self.vals@.len() == 0 || self.cursor@ < self.vals@.len() }
-    pub open spec fn after_next(&self) -> IterableValue {
-        IterableValue { cursor: Ghost(if self.cursor@ + 1 < self.vals@.len() { self.cursor@ + 1 } else { self.cursor@ }), nexts: Ghost(self.nexts@ + 1), ..*self }
+    pub open spec fn after_next(&self) -> IterableDyn {
+        IterableDyn { cursor: Ghost(if self.cursor@ + 1 < self.vals@.len() { self.cursor@ + 1 } else { self.cursor@ }), nexts: Ghost(self.nexts@ + 1), ..*self }
     }
-    pub open spec fn after_prev(&self) -> IterableValue {
-        IterableValue { cursor: Ghost(if self.cursor@ >= 1 { (self.cursor@ - 1) as nat } else { self.cursor@ }), prevs: Ghost(self.prevs@ + 1), ..*self }
+    pub open spec fn after_prev(&self) -> IterableDyn {
+        IterableDyn { cursor: Ghost(if self.cursor@ >= 1 { (self.cursor@ - 1) as nat } else { self.cursor@ }), prevs: Ghost(self.prevs@ + 1), ..*self }
     }
     #[verifier::external_body]
     pub fn next(&mut self) -> (r: bool)
@@ -517,6 +518,528 @@ pub fn cursor_visits_each_value_once(stream: &mut Stream<ValueAggregate>, fuel: 
     }
     (!state.should_continue(), Ghost(all))
 }
+//@ end
+
+// ================================================================ PART B: the executors
+// ---------------------------------------------------------------- shim: more opaque data (trusted)
+pub struct JArray { pub n: Ghost<nat>, pub x: u64 }
+impl JArray {
+    // real: `Rc<[JValue]>` (slice methods)
+    #[verifier::external_body] pub fn is_empty(&self) -> (r: bool) ensures r == (self.n@ == 0) { unimplemented!() }
+    #[verifier::external_body] pub fn len(&self) -> (r: usize) ensures r == self.n@ { unimplemented!() }
+    #[verifier::external_body] pub fn to_vec(&self) -> (r: Vec<JValue>) ensures r@.len() == self.n@ { unimplemented!() }
+}
+// the JSON value: an array, or anything else
+pub enum JValue { Array(JArray), Other(u64) }
+impl Clone for JValue {
+    #[verifier::external_body]
+    fn clone(&self) -> (r: Self) ensures r == *self { unimplemented!() }
+}
+pub struct SecurityTetraplet { pub x: u64 }
+pub type RcSecurityTetraplet = Rc<SecurityTetraplet>;
+pub struct Provenance { pub x: u64 }
+pub struct LambdaError { pub x: u8 }
+pub struct ErrorObjectError { pub x: u8 }
+pub struct StreamMapError { pub x: u8 }
+pub struct TraceHandlerError { pub x: u8 }
+pub type TraceHandlerResult<T> = Result<T, TraceHandlerError>;
+#[derive(Clone, Copy)]
+pub struct AirPos(pub usize);
+//@ lift crates/air-lib/air-parser/src/parser/span.rs :: struct Span
+//@ derive Clone Copy
+//@ end
+impl ValueAggregate {
+    pub uninterp spec fn result(&self) -> JValue;
+    #[verifier::external_body]
+    pub fn get_result(&self) -> (r: &JValue) ensures *r == self.result() { unimplemented!() }
+}
+
+// ---------------------------------------------------------------- errors: real enums
+// the variants the code lifted here constructs or must be told apart; every other uncatchable error is `Other`
+pub enum UncatchableError {
+    TraceError { trace_error: TraceHandlerError, instruction: String },
+    FoldStateNotFound(String),
+    MultipleIterableValues(String),
+    Other(u8),
+}
+//@ lift air/src/execution_step/errors/catchable_errors.rs :: enum CatchableError
+//@ derive
+//@ end
+//@ lift air/src/execution_step/errors/execution_errors.rs :: enum ExecutionError
+//@ derive
+//@ end
+pub type ExecutionResult<T> = Result<T, ExecutionError>;
+// the paths the lifted macros and function-local `use` items name
+pub mod execution_step { pub use super::{ExecutionError, UncatchableError, Joinable}; }
+impl vstd::std_specs::convert::FromSpecImpl<CatchableError> for ExecutionError {
+    open spec fn obeys_from_spec() -> bool { true }
+    open spec fn from_spec(c: CatchableError) -> ExecutionError { ExecutionError::Catchable(Rc::new(c)) }
+}
+//@ lift air/src/execution_step/errors/execution_errors.rs :: impl From<CatchableError> for ExecutionError
+//@ props C01 C18
+//@ end
+//@ lift air/src/execution_step/errors/joinable.rs :: trait Joinable
+//@ end
+pub open spec fn catchable(e: ExecutionError) -> bool { e is Catchable }
+pub open spec fn waiting(e: CatchableError) -> bool { e is VariableNotFound }
+pub open spec fn joinable_err(e: ExecutionError) -> bool {
+    match e { ExecutionError::Catchable(c) => waiting(*c), ExecutionError::Uncatchable(_) => false }
+}
+pub open spec fn is_trace_error(e: ExecutionError) -> bool { e matches ExecutionError::Uncatchable(u) && u is TraceError }
+pub open spec fn is_fold_state_not_found(e: ExecutionError, name: Chars) -> bool {
+    e matches ExecutionError::Uncatchable(UncatchableError::FoldStateNotFound(s)) && s@ == name
+}
+pub open spec fn is_multiple_iterable_values(e: ExecutionError, name: Chars) -> bool {
+    e matches ExecutionError::Uncatchable(UncatchableError::MultipleIterableValues(s)) && s@ == name
+}
+impl CatchableError {
+//@ lift air/src/execution_step/errors/catchable_errors.rs :: impl Joinable for CatchableError :: fn is_joinable
+//@ props C01
+//@ ret r
+//@ rewrite 1 "log_join!(\"  waiting for an argument with name '{}'\", var_name);" => ""
+//@ spec
+        ensures r == waiting(*self)
+//@ end
+}
+impl ExecutionError {
+//@ lift air/src/execution_step/errors/execution_errors.rs :: impl ExecutionError :: fn is_catchable
+//@ props C01 C18
+//@ ret r
+//@ spec
+        ensures r == catchable(*self)
+//@ end
+//@ lift air/src/execution_step/errors/execution_errors.rs :: impl Joinable for ExecutionError :: fn is_joinable
+//@ props C01
+//@ ret r
+//@ spec
+        ensures r == joinable_err(*self), r ==> catchable(*self)
+//@ end
+}
+
+// ---------------------------------------------------------------- the AST: real enum Instruction, real fold / next structs; the other kinds opaque
+pub mod ast {
+    use super::*;
+    macro_rules! opaque_kind {
+        ($name:ident) => { verus! { pub struct $name<'i> { pub ph: PhantomData<&'i u8> } } };
+    }
+    opaque_kind!(Call); opaque_kind!(Ap); opaque_kind!(ApMap); opaque_kind!(Canon); opaque_kind!(CanonMap); opaque_kind!(CanonStreamMapScalar);
+    opaque_kind!(Seq); opaque_kind!(Par); opaque_kind!(Xor); opaque_kind!(Match); opaque_kind!(MisMatch); opaque_kind!(Fail); opaque_kind!(New);
+    opaque_kind!(LambdaAST);
+    verus! { pub struct Never; pub struct Null; }
+//@ lift crates/air-lib/air-parser/src/ast/values.rs :: struct Scalar
+//@ derive
+//@ end
+//@ lift crates/air-lib/air-parser/src/ast/values.rs :: struct ScalarWithLambda
+//@ derive
+//@ end
+//@ lift crates/air-lib/air-parser/src/ast/values.rs :: struct Stream
+//@ derive
+//@ end
+//@ lift crates/air-lib/air-parser/src/ast/values.rs :: struct StreamMap
+//@ derive
+//@ end
+//@ lift crates/air-lib/air-parser/src/ast/values.rs :: struct CanonStream
+//@ derive
+//@ end
+//@ lift crates/air-lib/air-parser/src/ast/values.rs :: struct CanonStreamMap
+//@ derive
+//@ end
+//@ lift crates/air-lib/air-parser/src/ast/values.rs :: struct CanonStreamMapWithLambda
+//@ derive
+//@ end
+//@ lift crates/air-lib/air-parser/src/ast/instruction_arguments.rs :: enum FoldScalarIterable
+//@ derive
+//@ end
+//@ lift crates/air-lib/air-parser/src/ast/instructions.rs :: enum Instruction
+//@ derive
+//@ end
+//@ lift crates/air-lib/air-parser/src/ast/instructions.rs :: struct FoldScalar
+//@ derive
+//@ end
+//@ lift crates/air-lib/air-parser/src/ast/instructions.rs :: struct FoldStream
+//@ derive
+//@ end
+//@ lift crates/air-lib/air-parser/src/ast/instructions.rs :: struct FoldStreamMap
+//@ derive
+//@ end
+//@ lift crates/air-lib/air-parser/src/ast/instructions.rs :: struct Next
+//@ derive
+//@ end
+    impl<'i> Instruction<'i> {
+        // which instruction this is: all these contracts need to know about a child
+        pub uninterp spec fn id(&self) -> int;
+    }
+    // Display of the raw instruction: only rendered into the TraceError message
+    impl<'i> FoldStream<'i> { #[verifier::external_body] pub fn to_string(&self) -> String { unimplemented!() } }
+    impl<'i> FoldStreamMap<'i> { #[verifier::external_body] pub fn to_string(&self) -> String { unimplemented!() } }
+    impl<'i> Next<'i> { #[verifier::external_body] pub fn to_string(&self) -> String { unimplemented!() } }
+    impl<'i> LambdaAST<'i> { #[verifier::external_body] pub fn to_string(&self) -> String { unimplemented!() } }
+}
+use ast::Instruction;
+use ast::LambdaAST;
+
+// ---------------------------------------------------------------- fold/fold_state.rs (real)
+//@ lift air/src/execution_step/instructions/fold/fold_state.rs :: enum IterableType
+//@ derive Clone PartialEq Eq
+//@ end
+//@ lift air/src/execution_step/instructions/fold/fold_state.rs :: struct FoldState
+//@ derive
+//@ end
+// a fold state without its lifetime: what the ghost snapshots keep of it
+pub struct FoldAbs {
+    pub iterable: IterableDyn,
+    pub ty: IterableType,
+    pub back_started: bool,
+    pub head: int,                  // id of the body
+    pub last: Option<int>,          // id of the last instruction, if any
+}
+pub open spec fn opt_id(o: Option<Rc<Instruction>>) -> Option<int> { match o { Some(i) => Some(i.id()), None => None } }
+impl<'i> FoldState<'i> {
+    pub open spec fn abs(&self) -> FoldAbs {
+        FoldAbs { iterable: *self.iterable, ty: self.iterable_type, back_started: self.back_iteration_started,
+                  head: self.instr_head.id(), last: opt_id(self.last_instr_head) }
+    }
+//@ lift air/src/execution_step/instructions/fold/fold_state.rs :: impl<'i> FoldState<'i> :: fn from_iterable
+//@ props C01 C13
+//@ ret r
+//@ spec
+        ensures r == (FoldState { iterable, iterable_type, back_iteration_started: false, instr_head, last_instr_head })
+//@ end
+}
+pub type Iters = Map<Chars, FoldAbs>;
+pub open spec fn abs_map<'i>(m: Map<Chars, FoldState<'i>>) -> Iters { m.map_values(|f: FoldState<'i>| f.abs()) }
+
+// ---------------------------------------------------------------- shim: Scalars (trusted): the table of fold states + a log of the scope calls
+pub enum SEv { FoldStart, FoldEnd, NextBefore, NextAfter }
+pub type SLog = vstd::seq::Seq<SEv>;
+pub enum ScalarRef<'i> {
+    Value(&'i ValueAggregate),
+    IterableValue(&'i FoldState<'i>),
+}
+pub struct Scalars<'i> {
+    pub iterables: Ghost<Map<Chars, FoldState<'i>>>,     // real: `iterable_variables: HashMap<String, FoldState<'i>>`
+    pub evs: Ghost<SLog>,                                 // meet_fold_start / meet_fold_end / meet_next_before / meet_next_after calls
+    pub x: u8,
+}
+// what a scalar name resolves to: a function of the (read-only) table
+pub uninterp spec fn scalar_value<'i>(s: Scalars<'i>, name: Chars) -> ExecutionResult<ScalarRef<'i>>;
+impl<'i> Scalars<'i> {
+    // real: scalar_variables.rs:203..227 -> three ValuesSparseMatrix depth counters (`current_depth += 1` / `-= 1` on usize:
+    // the balance of these calls is what `fold_spec` / `next_spec` state through `evs`)
+    #[verifier::external_body]
+    pub fn meet_fold_start(&mut self)
+        ensures final(self).iterables@ == old(self).iterables@, final(self).evs@ == old(self).evs@.push(SEv::FoldStart)
+    { unimplemented!() }
+    #[verifier::external_body]
+    pub fn meet_fold_end(&mut self)
+        ensures final(self).iterables@ == old(self).iterables@, final(self).evs@ == old(self).evs@.push(SEv::FoldEnd)
+    { unimplemented!() }
+    #[verifier::external_body]
+    pub fn meet_next_before(&mut self)
+        ensures final(self).iterables@ == old(self).iterables@, final(self).evs@ == old(self).evs@.push(SEv::NextBefore)
+    { unimplemented!() }
+    #[verifier::external_body]
+    pub fn meet_next_after(&mut self)
+        ensures final(self).iterables@ == old(self).iterables@, final(self).evs@ == old(self).evs@.push(SEv::NextAfter)
+    { unimplemented!() }
+    // real: scalar_variables.rs:136 `iterable_variables.entry(name)`: Vacant => insert, Occupied => MultipleIterableValues(name)
+    #[verifier::external_body]
+    pub fn set_iterable_value(&mut self, name: &str, fold_state: FoldState<'i>) -> (r: ExecutionResult<()>)
+        ensures final(self).evs@ == old(self).evs@,
+            !old(self).iterables@.contains_key(name@) ==> r is Ok && final(self).iterables@ == old(self).iterables@.insert(name@, fold_state),
+            old(self).iterables@.contains_key(name@) ==> (r matches Err(e) && is_multiple_iterable_values(e, name@))
+                && final(self).iterables@ == old(self).iterables@,
+    { unimplemented!() }
+    // real: scalar_variables.rs:152 `iterable_variables.remove(name)`
+    #[verifier::external_body]
+    pub fn remove_iterable_value(&mut self, name: &str)
+        ensures final(self).evs@ == old(self).evs@, final(self).iterables@ == old(self).iterables@.remove(name@)
+    { unimplemented!() }
+    // real: scalar_variables.rs:160 `.get(name).ok_or_else(|| FoldStateNotFound(name))` (takes `&mut self`, changes nothing)
+    #[verifier::external_body]
+    pub fn get_iterable(&mut self, name: &str) -> (r: ExecutionResult<&FoldState<'i>>)
+        ensures *final(self) == *old(self),
+            old(self).iterables@.contains_key(name@) ==> (r matches Ok(fs) && *fs == old(self).iterables@[name@]),
+            !old(self).iterables@.contains_key(name@) ==> (r matches Err(e) && is_fold_state_not_found(e, name@)),
+    { unimplemented!() }
+    // real: scalar_variables.rs:166 `.get_mut(name).ok_or_else(|| FoldStateNotFound(name))`: a mutable borrow of exactly that entry
+    #[verifier::external_body]
+    pub fn get_iterable_mut(&mut self, name: &str) -> (r: ExecutionResult<&mut FoldState<'i>>)
+        ensures final(self).evs@ == old(self).evs@, final(self).x == old(self).x,
+            old(self).iterables@.contains_key(name@) ==> (r matches Ok(fs) && *fs == old(self).iterables@[name@]
+                && final(self).iterables@ == old(self).iterables@.insert(name@, *final(fs))),
+            !old(self).iterables@.contains_key(name@) ==> (r matches Err(e) && is_fold_state_not_found(e, name@))
+                && final(self).iterables@ == old(self).iterables@,
+    { unimplemented!() }
+    // real: scalar_variables.rs:184 (unit misc_c01 proves it total: F7); read-only
+    #[verifier::external_body]
+    pub fn get_value(&'i self, name: &str) -> (r: ExecutionResult<ScalarRef<'i>>)
+        ensures r == scalar_value(*self, name@),
+            // an iterator name resolves to its registered fold state
+            r matches Ok(ScalarRef::IterableValue(fs)) ==> self.iterables@.contains_key(name@) && *fs == self.iterables@[name@],
+    { unimplemented!() }
+}
+
+// ---------------------------------------------------------------- shim: trace handler (trusted): abstract FoldFSM states + ghost call log
+//@ lift crates/air-lib/trace-handler/src/state_automata/fold_fsm/lore_ctor.rs :: enum CtorState
+//@ derive PartialEq Eq Clone Copy
+//@ end
+// The three things of a FoldFSM the call-order facts of units/fold_fsm.rs speak about, under the names that unit uses, so that its
+// spec functions can be imported verbatim: the ctor queue (only each ctor's typestate), the back-traversal cursor, the flag.
+pub struct SubTraceLoreCtor { pub state: CtorState }
+impl SubTraceLoreCtor { pub open spec fn st(&self) -> CtorState { self.state } }
+pub struct LoreCtorDesc { pub ctor: SubTraceLoreCtor }
+pub struct FoldFSM { pub queue: vstd::seq::Seq<LoreCtorDesc>, pub back_traversal_pos: nat, pub back_traversal_started: bool }
+impl FoldFSM {
+    pub open spec fn q(&self) -> vstd::seq::Seq<LoreCtorDesc> { self.queue }
+    pub open spec fn pos(&self) -> nat { self.back_traversal_pos }
+    pub open spec fn started(&self) -> bool { self.back_traversal_started }
+}
+//@ import-spec fold_fsm :: can_start_iteration can_end_iteration can_go_back
+// the transitions: the ensures clauses unit fold_fsm proves for the real FoldFSM methods, restricted to (q, pos, started)
+pub open spec fn fsm_fresh(f: FoldFSM) -> bool { f.q().len() == 0 && f.pos() == 0 && !f.started() }
+pub open spec fn fsm_iteration_started(f0: FoldFSM, f1: FoldFSM, ok: bool) -> bool {
+    &&& f1.started() == f0.started()
+    &&& !ok ==> f1.q() == f0.q() && f1.pos() == f0.pos()
+    &&& ok ==> f1.q().len() == f0.q().len() + 1 && f1.pos() == f0.pos() + 1
+            && (forall|i: int| 0 <= i < f0.q().len() ==> f1.q()[i] == f0.q()[i]) && f1.q().last().ctor.st() is BeforeStarted
+}
+pub open spec fn fsm_iteration_ended(f0: FoldFSM, f1: FoldFSM) -> bool {
+    &&& f1.started() == f0.started() && f1.pos() == f0.pos() && f1.q().len() == f0.q().len()
+    &&& forall|i: int| 0 <= i < f0.q().len() && i != f0.pos() - 1 ==> f1.q()[i] == f0.q()[i]
+    &&& f1.q()[f0.pos() - 1].ctor.st() is BeforeCompleted
+}
+pub open spec fn fsm_went_back(f0: FoldFSM, f1: FoldFSM, ok: bool) -> bool {
+    &&& f1.q().len() == f0.q().len()
+    &&& !f0.started() ==> f1.pos() == f0.pos() && (ok ==> f1.started())
+    &&& f0.started() ==> f1.pos() == f0.pos() - 1 && f1.started()
+    &&& f1.q()[f1.pos() - 1].ctor.st() is AfterStarted
+    &&& f0.started() ==> f1.q()[f0.pos() - 1].ctor.st() is AfterCompleted
+    &&& forall|i: int| 0 <= i < f0.q().len() && i != f1.pos() - 1 && i != f0.pos() - 1 ==> f1.q()[i] == f0.q()[i]
+}
+pub enum TEv {
+    FoldStart { id: int, ok: bool },
+    IterationStart { id: int, pos: TracePos, ok: bool },
+    IterationEnd { id: int, ok: bool },
+    BackIterator { id: int, ok: bool },
+    GenerationEnd { id: int, ok: bool },
+    FoldEnd { id: int, ok: bool },
+    Child { id: int },
+}
+pub type TLog = vstd::seq::Seq<TEv>;
+pub type Folds = Map<int, FoldFSM>;
+pub struct TraceHandler { pub folds: Ghost<Folds>, pub log: Ghost<TLog>, pub x: u8 }
+// every fold but `id` is untouched
+pub open spec fn others_same(a: Folds, b: Folds, id: int) -> bool {
+    forall|k: int| k != id ==> (a.contains_key(k) == b.contains_key(k)) && (a.contains_key(k) ==> #[trigger] b[k] == a[k])
+}
+impl TraceHandler {
+    // real (handler.rs:143): try_merge_next_state_as_fold (unit mergers), FoldFSM::from_fold_start (unit fold_fsm: empty queue,
+    // cursor 0, flag false), fsm_keeper.add_fold(fold_id, fsm). Errors depend on hostile data.
+    #[verifier::external_body]
+    pub fn meet_fold_start(&mut self, fold_id: u32) -> (r: TraceHandlerResult<()>)
+        ensures final(self).log@ == old(self).log@.push(TEv::FoldStart { id: fold_id as int, ok: r is Ok }),
+            r is Err ==> final(self).folds@ == old(self).folds@,
+            r is Ok ==> final(self).folds@.contains_key(fold_id as int) && fsm_fresh(final(self).folds@[fold_id as int])
+                && others_same(old(self).folds@, final(self).folds@, fold_id as int),
+    { unimplemented!() }
+    // real (handler.rs:151): fsm_keeper.fold_mut(fold_id)? -- FoldFSMNotFound, no panic -- then FoldFSM::meet_iteration_start, whose
+    // precondition in unit fold_fsm is the call-order fact `can_start_iteration`
+    #[verifier::external_body]
+    pub fn meet_iteration_start(&mut self, fold_id: u32, value_pos: TracePos) -> (r: TraceHandlerResult<()>)
+        requires old(self).folds@.contains_key(fold_id as int) ==> can_start_iteration(old(self).folds@[fold_id as int])
+        ensures final(self).log@ == old(self).log@.push(TEv::IterationStart { id: fold_id as int, pos: value_pos, ok: r is Ok }),
+            others_same(old(self).folds@, final(self).folds@, fold_id as int),
+            final(self).folds@.contains_key(fold_id as int) == old(self).folds@.contains_key(fold_id as int),
+            !old(self).folds@.contains_key(fold_id as int) ==> r is Err,
+            old(self).folds@.contains_key(fold_id as int) ==>
+                fsm_iteration_started(old(self).folds@[fold_id as int], final(self).folds@[fold_id as int], r is Ok),
+    { unimplemented!() }
+    // real (handler.rs:158): FoldFSM::meet_iteration_end -- `self.ctor_queue.current()` = `queue[back_traversal_pos - 1]`:
+    // the call-order fact `can_end_iteration`
+    #[verifier::external_body]
+    pub fn meet_iteration_end(&mut self, fold_id: u32) -> (r: TraceHandlerResult<()>)
+        requires old(self).folds@.contains_key(fold_id as int) ==> can_end_iteration(old(self).folds@[fold_id as int])
+        ensures final(self).log@ == old(self).log@.push(TEv::IterationEnd { id: fold_id as int, ok: r is Ok }),
+            others_same(old(self).folds@, final(self).folds@, fold_id as int),
+            final(self).folds@.contains_key(fold_id as int) == old(self).folds@.contains_key(fold_id as int),
+            r is Ok <==> old(self).folds@.contains_key(fold_id as int),
+            old(self).folds@.contains_key(fold_id as int) ==>
+                fsm_iteration_ended(old(self).folds@[fold_id as int], final(self).folds@[fold_id as int]),
+    { unimplemented!() }
+    // real (handler.rs:165): FoldFSM::meet_back_iterator -- `current()` and, once the back traversal runs, `traverse_back()`
+    // (`back_traversal_pos -= 1`) followed by `current()` again: the call-order fact `can_go_back`
+    #[verifier::external_body]
+    pub fn meet_back_iterator(&mut self, fold_id: u32) -> (r: TraceHandlerResult<()>)
+        requires old(self).folds@.contains_key(fold_id as int) ==> can_go_back(old(self).folds@[fold_id as int])
+        ensures final(self).log@ == old(self).log@.push(TEv::BackIterator { id: fold_id as int, ok: r is Ok }),
+            others_same(old(self).folds@, final(self).folds@, fold_id as int),
+            final(self).folds@.contains_key(fold_id as int) == old(self).folds@.contains_key(fold_id as int),
+            !old(self).folds@.contains_key(fold_id as int) ==> r is Err,
+            old(self).folds@.contains_key(fold_id as int) ==>
+                fsm_went_back(old(self).folds@[fold_id as int], final(self).folds@[fold_id as int], r is Ok),
+    { unimplemented!() }
+    // real (handler.rs:172): FoldFSM::meet_generation_end -- NO call-order precondition in unit fold_fsm: it finishes whatever an
+    // early exit left in the queue and resets the cursor and the flag
+    #[verifier::external_body]
+    pub fn meet_generation_end(&mut self, fold_id: u32) -> (r: TraceHandlerResult<()>)
+        ensures final(self).log@ == old(self).log@.push(TEv::GenerationEnd { id: fold_id as int, ok: r is Ok }),
+            others_same(old(self).folds@, final(self).folds@, fold_id as int),
+            final(self).folds@.contains_key(fold_id as int) == old(self).folds@.contains_key(fold_id as int),
+            r is Ok <==> old(self).folds@.contains_key(fold_id as int),
+            old(self).folds@.contains_key(fold_id as int) ==> fsm_fresh(final(self).folds@[fold_id as int]),
+    { unimplemented!() }
+    // real (handler.rs:179): fsm_keeper.extract_fold(fold_id)? then FoldFSM::meet_fold_end (no call-order precondition)
+    #[verifier::external_body]
+    pub fn meet_fold_end(&mut self, fold_id: u32) -> (r: TraceHandlerResult<()>)
+        ensures final(self).log@ == old(self).log@.push(TEv::FoldEnd { id: fold_id as int, ok: r is Ok }),
+            r is Ok <==> old(self).folds@.contains_key(fold_id as int),
+            final(self).folds@ == old(self).folds@.remove(fold_id as int),
+    { unimplemented!() }
+}
+
+// ---------------------------------------------------------------- shim: the context (trusted layout; real accessors lifted)
+pub struct InstructionTracker { pub x: u8 }
+impl InstructionTracker {
+    // real: execution-info-collector instructions_tracker.rs:96 `seen_stream_count += 1; seen_stream_count` (u32; 2^32 stream
+    // folds in one run are out of reach of the run's time budget: not claimed)
+    #[verifier::external_body]
+    pub fn meet_fold_stream(&mut self) -> u32 { unimplemented!() }
+}
+// which stream a (name, position) pair denotes, if any (streams_variables.rs / stream_maps_variables.rs: `find_closest`)
+pub type StreamKey = (Chars, usize);
+pub struct Streams { pub tbl: Ghost<Map<StreamKey, Stream<ValueAggregate>>>, pub x: u8 }
+pub struct StreamMaps { pub tbl: Ghost<Map<StreamKey, Stream<ValueAggregate>>>, pub x: u8 }    // each map's underlying stream
+pub struct StreamRef { pub x: u8 }
+impl StreamRef { #[verifier::external_body] pub fn is_none(&self) -> bool { unimplemented!() } }
+impl Streams {
+    // real: streams_variables.rs:52 `Option<&Stream>`; only `.is_none()` is asked of the result
+    #[verifier::external_body]
+    pub fn get(&self, name: &str, position: AirPos) -> (r: Option<&Stream<ValueAggregate>>)
+        ensures r is Some <==> self.tbl@.contains_key((name@, position.0)), r matches Some(s) ==> *s == self.tbl@[(name@, position.0)]
+    { unimplemented!() }
+}
+impl StreamMaps {
+    // real: stream_maps_variables.rs:110 `Option<&StreamMap>`
+    #[verifier::external_body]
+    pub fn get(&self, name: &str, position: AirPos) -> (r: Option<&Stream<ValueAggregate>>)
+        ensures r is Some <==> self.tbl@.contains_key((name@, position.0)), r matches Some(s) ==> *s == self.tbl@[(name@, position.0)]
+    { unimplemented!() }
+}
+
+pub struct Snap {
+    pub complete: bool,        // ExecutionCtx::subgraph_completeness
+    pub iters: Iters,          // the registered fold states (Scalars.iterables), without lifetimes
+    pub sevs: SLog,            // Scalars.evs
+}
+// one child execution, as recorded in the ghost log
+pub struct Ran {
+    pub id: int,
+    pub pre: Snap,
+    pub res: ExecutionResult<()>,
+    pub post: Snap,
+}
+pub type Log = vstd::seq::Seq<Ran>;
+pub struct ExecutionCtx<'i> {
+    pub scalars: Scalars<'i>,
+    pub streams: Streams,
+    pub stream_maps: StreamMaps,
+    pub subgraph_completeness: bool,
+    pub tracker: InstructionTracker,
+    pub log: Ghost<Log>,
+}
+impl<'i> ExecutionCtx<'i> {
+    pub open spec fn iters(&self) -> Iters { abs_map(self.scalars.iterables@) }
+    pub open spec fn snap(&self) -> Snap { Snap { complete: self.subgraph_completeness, iters: self.iters(), sevs: self.scalars.evs@ } }
+    pub open spec fn same_but_complete(&self, o: &Self) -> bool {
+        self.scalars == o.scalars && self.streams == o.streams && self.stream_maps == o.stream_maps && self.tracker == o.tracker && self.log@ == o.log@
+    }
+}
+impl ExecutionCtx<'_> {
+//@ lift air/src/execution_step/execution_context/context.rs :: impl ExecutionCtx<'_> :: fn make_subgraph_incomplete
+//@ props C01
+//@ spec
+        ensures !final(self).subgraph_completeness, final(self).same_but_complete(old(self))
+//@ end
+//@ lift air/src/execution_step/execution_context/context.rs :: impl ExecutionCtx<'_> :: fn is_subgraph_complete
+//@ props C01
+//@ ret r
+//@ spec
+        ensures r == self.subgraph_completeness
+//@ end
+//@ lift air/src/execution_step/execution_context/context.rs :: impl ExecutionCtx<'_> :: fn set_subgraph_completeness
+//@ props C01
+//@ spec
+        ensures final(self).subgraph_completeness == subgraph_complete, final(self).same_but_complete(old(self))
+//@ end
+//@ lift air/src/execution_step/execution_context/context.rs :: impl ExecutionCtx<'_> :: fn flush_subgraph_completeness
+//@ props C01
+//@ spec
+        ensures final(self).subgraph_completeness, final(self).same_but_complete(old(self))
+//@ end
+}
+
+// what a child execution may do to the FoldFSMs of the folds it runs inside (ASSUMED of the opaque child, PROVED for `next`, the
+// only instruction that moves a fold's cursor): no fold disappears and no cursor moves back below where it was
+pub open spec fn fsm_monotone(a: Folds, b: Folds) -> bool {
+    forall|k: int| a.contains_key(k) ==> b.contains_key(k) && #[trigger] b[k].pos() >= a[k].pos()
+}
+// ... and to the streams: a stream that a (name, position) pair denotes keeps being denoted by it (scopes opened by the child are
+// closed by it: unit control_exec, `balanced`)
+pub open spec fn streams_kept(a: ExecutionCtx, b: ExecutionCtx) -> bool {
+    a.streams.tbl@.dom().subset_of(b.streams.tbl@.dom()) && a.stream_maps.tbl@.dom().subset_of(b.stream_maps.tbl@.dom())
+}
+impl<'i> Instruction<'i> {
+    // the child of a compound instruction: an arbitrary instruction, known by its id
+    #[verifier::external_body]
+    pub fn execute(&self, exec_ctx: &mut ExecutionCtx<'i>, trace_ctx: &mut TraceHandler) -> (r: ExecutionResult<()>)
+        ensures
+            final(exec_ctx).log@ == old(exec_ctx).log@.push(
+                Ran { id: self.id(), pre: old(exec_ctx).snap(), res: r, post: final(exec_ctx).snap() }),
+            final(trace_ctx).log@ == old(trace_ctx).log@.push(TEv::Child { id: self.id() }),
+            fsm_monotone(old(trace_ctx).folds@, final(trace_ctx).folds@),
+            streams_kept(*old(exec_ctx), *final(exec_ctx)),
+    { unimplemented!() }
+}
+
+// ================================================================ fold_scalar.rs :: fn fold  (the one place a fold state is registered; used by every fold)
+// the fold state is registered under the iterator's name, the body runs exactly once with it, the state is removed again --
+// whatever the body returned; a name that is already taken is the uncatchable MultipleIterableValues and the body does not run
+pub open spec fn fold_spec(state: FoldAbs, name: Chars, body: int, c0: ExecutionCtx, c1: ExecutionCtx, t0: TraceHandler, t1: TraceHandler, r: ExecutionResult<()>) -> bool {
+    if c0.iters().contains_key(name) {
+        &&& r matches Err(e) && is_multiple_iterable_values(e, name)
+        &&& c1.log@ == c0.log@ && t1 == t0 && c1.iters() == c0.iters() && c1.subgraph_completeness == c0.subgraph_completeness
+        &&& c1.streams == c0.streams && c1.stream_maps == c0.stream_maps
+    } else {
+        let ran = c1.log@[c0.log@.len() as int];
+        &&& c1.log@ =~= c0.log@.push(ran) && ran.id == body
+        &&& t1.log@ =~= t0.log@.push(TEv::Child { id: body }) && fsm_monotone(t0.folds@, t1.folds@)
+        // entered with the state registered (and the scalars told that a fold starts) ...
+        &&& ran.pre == (Snap { complete: c0.subgraph_completeness, iters: c0.iters().insert(name, state), sevs: c0.scalars.evs@.push(SEv::FoldStart) })
+        // ... left with it removed (and the scalars told that the fold ends): on every path
+        &&& c1.snap() == (Snap { complete: ran.post.complete, iters: ran.post.iters.remove(name), sevs: ran.post.sevs.push(SEv::FoldEnd) })
+        &&& r == ran.res
+        &&& streams_kept(c0, c1)
+    }
+}
+pub proof fn lemma_abs_insert<'i>(m: Map<Chars, FoldState<'i>>, k: Chars, f: FoldState<'i>)
+    ensures abs_map(m.insert(k, f)) =~= abs_map(m).insert(k, f.abs())
+{ }
+pub proof fn lemma_abs_remove<'i>(m: Map<Chars, FoldState<'i>>, k: Chars)
+    ensures abs_map(m.remove(k)) =~= abs_map(m).remove(k)
+{ }
+
+//@ lift air/src/execution_step/instructions/fold_scalar.rs :: fn fold
+//@ props C01 C13
+//@ ret r
+//@ after "exec_ctx.scalars.set_iterable_value(iterator, fold_state)?;"
+    proof { lemma_abs_insert(old(exec_ctx).scalars.iterables@, iterator@, fold_state); }
+//@ before "exec_ctx.scalars.remove_iterable_value(iterator);"
+    proof { lemma_abs_remove(exec_ctx.scalars.iterables@, iterator@); }
+//@ spec
+    ensures fold_spec(
+        FoldAbs { iterable: *iterable, ty: iterable_type, back_started: false, head: instruction.id(), last: opt_id(last_instruction) },
+        iterator@, instruction.id(), *old(exec_ctx), *final(exec_ctx), *old(trace_ctx), *final(trace_ctx), r)
 //@ end
 
 } // verus!
